@@ -1071,6 +1071,12 @@ class Exec(object):
         if cls == "peer-call-without-destination":
             self.part.count("monitor-peer-call:%s" % ("disconnected" if ok else "answered-and-still-connected"))
             self.mons[i]["stream_end"] = before       # what libdbus answered is outside the judged stream
+            if not ok:
+                # a genuine deviation of the pinned tree (recorded in known_findings.json): the monitor sent something, was
+                # answered and stays connected
+                self.violation("monitor-not-disconnected-after-sending:peer-call-without-destination",
+                               "a monitor sent org.freedesktop.DBus.Peer.%s without DESTINATION, got an answer and was not disconnected"
+                               % kw.get("member", b"?").decode())
             return
         # nothing may come back to it: it is never the addressee of a delivery
         uM = self.uniq[i]
@@ -1665,6 +1671,6 @@ def run(tier, seed, replay=None, scale=1.0):
         "so no ordinary delivery is ever near max_outgoing_bytes; that the lagging monitor's bus-side queue really exceeded the limit "
         "is inferred from the bytes it drained (more than twice the default socket send buffer plus the limit)",
         "a monitor that sends a destination-less method call on org.freedesktop.DBus.Peer is answered by libdbus inside the bus "
-        "process and not disconnected on the unchanged tree; that one variant is recorded (monitor-peer-call:*) and not judged",
+        "process and not disconnected on the unchanged tree; that one variant is a recorded finding (known_findings.json)",
         "only the paired control 'disconnects instead' is run; the 'never connects' control of DESIGN.md is not"]
     return r.finish()
